@@ -5,8 +5,15 @@ pub use swc_core::common::{comments::{Comment, CommentKind, Comments, GlobalComm
 pub use swc_core::ecma::{ast::*, atoms::Atom};
 pub use std::borrow::Cow;
 
-/// A-DROP: destructors of AST nodes have no observable effect on the transform's result, so all drop glue is
-/// removed (the harness leaks).  Without this CBMC unwinds the mutually recursive drop glue of the AST forever.
+/// A-DROP: destructors have no observable effect on the transform's result, so ALL drop glue is removed (the harness leaks).
+/// Without this CBMC unwinds the mutually recursive drop glue of the AST forever.  This is false for a few std guard types
+/// whose destructor does work; the ones the code under contract can reach are handled explicitly:
+///  * `SetLenOnDrop` (inside `Vec::extend_trusted`: `Vec::extend_from_slice` on Clone types, `resize`, exact-size `collect`):
+///    `Vec::extend_from_slice` is replaced by `verif_models::extend_from_slice_model` in every harness whose code calls it;
+///    the self-check harness `guard_model_selfcheck` fails if the replacement is missing or wrong;
+///  * the sort guards (`CopyOnDrop`; reached only through `BTreeSet::from_iter`): thorough-tier units replace
+///    `alloc::slice::stable_sort` by `stable_sort_model`;
+///  * `vec::Drain` / `Splice` (v-models decoupling) and the `retain` / `dedup` guards: not reached by any unit.
 pub unsafe fn no_drop<T: ?Sized>(_p: *mut T) {}
 pub unsafe fn no_glue<T: ?Sized>(_p: &mut T) {}
 /// A-FMT: `format!` is replaced by a model that returns a marker string; generated *names* built with format!
@@ -114,9 +121,9 @@ macro_rules! gvec_pool { ($fname:ident, $t:ty, $init:expr, $($s:ident),*) => {
             static mut NEXT: u32 = 0;
             let k = NEXT; NEXT += 1;
             let mut it = items.into_iter();
-            if !G_ON { return it.collect(); }
+            if !G_ON { let mut out = Vec::new(); for x in it { out.push(x); } return out; }
             let mut pool: [*mut [$t; 4]; 6] = [$(core::ptr::addr_of_mut!($s)),*];
-            if N > 4 || k >= 6 { return it.collect(); }
+            if N > 4 || k >= 6 { let mut out = Vec::new(); for x in it { out.push(x); } return out; }
             let p = pool[k as usize];
             let mut i = 0;
             while i < N { match it.next() { Some(x) => { core::ptr::write(&mut (*p)[i], x); } None => {} } i += 1; }
@@ -229,3 +236,5 @@ pub fn pd_model(_jsx_attr: &JSXAttr, is_component: bool) -> Directive {
         _ => Directive::Slots(None),
     }
 }
+
+pub use verif_models::extend_from_slice_model;
